@@ -49,6 +49,29 @@ theorem finishFrame_frames_notok (P : Params) (m : Machine) (f : Frame) (rest : 
   simp only [depositRes_of_ne_ok P f.kind res g r h]
   cases res <;> simp_all
 
+/-- general form: whatever the run's outcome `res`, if the outcome after CREATE's code deposit
+    (`depositRes`) is not `ok`, the journal is truncated to the snapshot -/
+theorem finishFrame_journal_fail (P : Params) (m : Machine) (f : Frame) (rest : List Frame) (res : Res) (g r : Nat)
+    (h : depositRes P f.kind res g r ≠ .ok) :
+    (finishFrame P m f rest res g r).journal =
+      m.journal.take f.snap ++ failEvents f.kind (depositRes P f.kind res g r) := by
+  unfold finishFrame
+  simp only []
+  rw [if_neg h, if_neg (by intro hh; exact h hh.2.2)]
+
+theorem finishFrame_frames_fail (P : Params) (m : Machine) (f : Frame) (rest : List Frame) (res : Res) (g r : Nat)
+    (h : depositRes P f.kind res g r ≠ .ok) :
+    (finishFrame P m f rest res g r).frames =
+      addGas rest (if depositRes P f.kind res g r = .failed then 0 else g) := by
+  have h0 : (finishFrame P m f rest res g r).frames =
+      addGas rest (if depositRes P f.kind res g r = .failed then 0 else depositGas P f.kind res g r) := rfl
+  rw [h0]
+  by_cases hf : depositRes P f.kind res g r = .failed
+  · rw [if_pos hf, if_pos hf]
+  · rw [if_neg hf, if_neg hf]
+    unfold depositGas
+    rw [if_neg (by intro hh; exact h hh.2.2)]
+
 /-- the snapshot journal of the finished frame is a prefix of the journal afterwards -/
 theorem finishFrame_prefix (P : Params) (m : Machine) (f : Frame) (rest : List Frame) (res : Res) (g r : Nat)
     (h1 : f.entry <+: m.journal) (h2 : f.snap = f.entry.length) :
@@ -140,7 +163,7 @@ theorem step_chain (T : Table) (m : Machine) (c : Choice) (hc : Chain m.journal 
       cases hk : T.kindOf c.op with
       | none =>
         simp only []
-        have hc1 : Chain (if (T.info c.op).writes then m.journal ++ List.replicate c.writes Entry.write else m.journal) (f :: rest) := by
+        have hc1 : Chain (if (T.info c.op).writes then m.journal ++ c.wtags.map Entry.write else m.journal) (f :: rest) := by
           split
           · exact chain_mono (List.prefix_append _ _) hc
           · exact hc
